@@ -2,7 +2,10 @@
 //!
 //! Requests (all run REAL pipelines / functions of ironbeam):
 //!
-//! `VALIDATE <skip|log|ff> <rec|kv> <mode|short> <COLL> <seq|par:N|par:none> <rows>`
+//! `VALIDATE <skip|log|ff> <rec|kv> <mode|short> <COLL> <EXEC> <rows>`
+//!     EXEC  : `seq` = collect_seq, `par:N` = collect_par(_, Some(N)), `par:none` = collect_par(_, None), and
+//!             `ckseq` / `ckpar:N` = the same run through `Runner { checkpoint_config: Some(enabled), .. }`, i.e.
+//!             through `exec_seq_with_checkpointing` (a second copy of the node loop) / `exec_par_with_checkpointing`
 //!     rows  : `-` or comma-separated `id:SPEC` (rec) / `key=id:SPEC` (kv); SPEC = `V` (validate() = Ok) or
 //!             `E<digits>` (validate() = Err(list of the errors with these one-digit codes); `E` = Err(vec![]))
 //!     api   : `mode`  = validate_with_mode / validate_values_with_mode (collector Some unless COLL = c0)
@@ -21,20 +24,35 @@
 //!             names the failing index and errors) / `PANIC` (parallel: which partition's panic is propagated is
 //!             scheduling-dependent, so only the fact is compared)
 //! `COMBINE <results>`   results: `-` or comma-separated `V` / `E<digits>`;  answer `OK` | `ERR <digits|->`
-//! `VPIPE <skip|log|ff> <rec|kv> <COLL> <seq|par:N|par:none> <steps> <rows>`  pipeline `from_vec → steps → collect`,
+//! `VPIPE <skip|log|ff> <rec|kv> <COLL> <EXEC> <steps> <rows>`  pipeline `from_vec → steps → collect`,
 //!     steps a `+`-separated list drawn from `inc` (map_values / map: shift every error code by one, mod 10),
 //!     `heal` (map_values / map: a record whose errors are all even becomes valid), `brk` (map_values / map: a
 //!     VALID record whose id is divisible by 3 becomes invalid with the one error `id mod 10`), `odd`
 //!     (filter_values / filter: keep records with an odd id), `val` (validate_values_with_mode /
 //!     validate_with_mode; EVERY `val` of the request shares the one collector) — the block goes through the
 //!     REAL planner (fusion + reorder pass), so a validator that let itself be moved would change the answer.
+//!     `gbk` = a barrier: group_by_key + the ungrouping flat_map (unkeyed shape: key_by(key_of(id)) in front, flat_map
+//!     back to records); the rows leave it in `HashMap` order, so for a request with a `gbk` the kept rows are
+//!     rendered sorted and the log sorted without ids.
 //!     answer as for VALIDATE.
+//! `VJOIN <skip|log|ff> <COLL> <EXEC> <lsteps|-> <lrows> <rsteps|-> <rrows>`  `left.steps.join_inner(right.steps)` on
+//!     keyed rows, steps as in VPIPE without `gbk`; every validator of BOTH sides shares the collector. Joined row
+//!     `key=<left rec>&<right rec>`, rendered sorted (hasher order); log as for VALIDATE (left side's entries
+//!     before the right side's when sequential).
+//! `BIG <skip|log|ff> <rec|kv> <COLL> <EXEC> <len> <period> <v|i>`  one validator over `len` formula-generated rows
+//!     (`v`: row i valid iff i % period == period-1; `i`: INVALID iff …; an invalid row has four errors spelling i
+//!     backwards; key = key_of(i)). answer: `OK kept=<count> khash=<order-dependent hash of the kept rows> pre=…
+//!     log=<count> lsum=<order-independent checksum of the new entries, ids included> lseq=<order-dependent one,
+//!     sequential runs only>`; the oracle below is evaluated on the full real result.
 //!
 //! Oracle (independent of the Lean model; computed from the request alone): output = the valid records in
 //! order; whatever was in the collector before the run is still there, unchanged, in front; in log mode with a
 //! collector the multiset of error lists logged BY THIS RUN = the invalid records' error lists (hence one entry
 //! per invalid record and |output| + |new entries| = |input|); nothing is logged otherwise; skip/log never
-//! fail — also when the collector's mutex is poisoned; fail-fast fails iff some record is invalid;
+//! fail — also when the collector's mutex is poisoned; fail-fast fails iff some record is invalid; on ONE
+//! partition (sequential, or one partition asked for) the entries are the invalid records by position, in order;
+//! all of this unchanged with checkpointing enabled (a validator applied twice would log twice), behind a barrier
+//! (multisets) and for the two sides of a join (output = join of the valid records of each side);
 //! `error_count()` = `errors().len()`; combine is Ok iff every part is Ok and otherwise carries the
 //! concatenation of all error lists in order.
 
@@ -42,10 +60,11 @@ use crate::ctx::{Ctx, Tier, guarded};
 use ironbeam::validation::{
     ErrorCollector, Validate, ValidationError, ValidationMode, ValidationResult, combine_validations,
 };
+use ironbeam::checkpoint::{CheckpointConfig, CheckpointPolicy};
 use ironbeam::node::Node;
-use ironbeam::{Pipeline, from_vec};
-use std::sync::atomic::{AtomicU32, Ordering};
-use std::sync::{Arc, Mutex};
+use ironbeam::{ExecMode, PCollection, Pipeline, Runner, from_vec};
+use std::sync::atomic::{AtomicU32, AtomicUsize, Ordering};
+use std::sync::{Arc, Mutex, OnceLock};
 
 /// scheduling jitter inside `validate()` (0 = off): makes partitions reach the shared collector at uneven times
 static JITTER: AtomicU32 = AtomicU32::new(0);
@@ -107,10 +126,25 @@ impl Mode {
 }
 const MODES: [Mode; 3] = [Mode::Skip, Mode::Log, Mode::Ff];
 
+/// `CkSeq` / `CkPar(n)`: the same run through `Runner { checkpoint_config: Some(enabled) }`, i.e. through
+/// `exec_seq_with_checkpointing` (its own copy of the node loop) / `exec_par_with_checkpointing`
 #[derive(Clone, Copy, PartialEq, Eq, Debug)]
-enum Exec { Seq, Par(usize), ParNone }
+enum Exec { Seq, Par(usize), ParNone, CkSeq, CkPar(usize) }
 impl Exec {
-    fn tok(self) -> String { match self { Exec::Seq => "seq".into(), Exec::Par(n) => format!("par:{n}"), Exec::ParNone => "par:none".into() } }
+    fn tok(self) -> String {
+        match self {
+            Exec::Seq => "seq".into(),
+            Exec::Par(n) => format!("par:{n}"),
+            Exec::ParNone => "par:none".into(),
+            Exec::CkSeq => "ckseq".into(),
+            Exec::CkPar(n) => format!("ckpar:{n}"),
+        }
+    }
+    fn is_seq(self) -> bool { matches!(self, Exec::Seq | Exec::CkSeq) }
+    fn is_ck(self) -> bool { matches!(self, Exec::CkSeq | Exec::CkPar(_)) }
+    /// the partition count asked for (None: sequential / planner's choice)
+    fn parts(self) -> Option<usize> { match self { Exec::Par(n) | Exec::CkPar(n) => Some(n), _ => None } }
+    fn ck(self) -> Exec { match self { Exec::Seq => Exec::CkSeq, Exec::Par(n) => Exec::CkPar(n), e => e } }
 }
 
 fn digits(cs: &[u8]) -> String { cs.iter().map(|c| (b'0' + c) as char).collect() }
@@ -202,11 +236,43 @@ fn flatten_run<T>(r: Result<anyhow::Result<Vec<T>>, String>, enc: impl Fn(&T) ->
     }
 }
 
-fn collect<T: ironbeam::RFBound>(c: ironbeam::PCollection<T>, exec: Exec) -> Result<anyhow::Result<Vec<T>>, String> {
+/// scratch directory of the checkpointing runs (one per harness process; /dev/shm when there is one)
+fn ck_dir() -> &'static std::path::Path {
+    static DIR: OnceLock<tempfile::TempDir> = OnceLock::new();
+    DIR.get_or_init(|| {
+        let shm = std::path::Path::new("/dev/shm");
+        if shm.is_dir() {
+            if let Ok(t) = tempfile::Builder::new().prefix("ibh-c17-").tempdir_in(shm) { return t; }
+        }
+        tempfile::Builder::new().prefix("ibh-c17-").tempdir().expect("tempdir")
+    })
+    .path()
+}
+static CK_RUNS: AtomicUsize = AtomicUsize::new(0);
+/// an ENABLED checkpoint configuration; policy / recovery / retention rotate with the run counter (none of them may
+/// matter: C11, and `validate_checkpointed_is_plain`). Files a failed (fail-fast) run leaves behind are found by the
+/// recovery block of a later run.
+fn ck_config() -> CheckpointConfig {
+    let k = CK_RUNS.fetch_add(1, Ordering::Relaxed);
+    CheckpointConfig {
+        enabled: true,
+        directory: ck_dir().to_path_buf(),
+        policy: match k % 3 { 0 => CheckpointPolicy::AfterEveryBarrier, 1 => CheckpointPolicy::EveryNNodes(1), _ => CheckpointPolicy::Hybrid { barriers: true, interval_secs: 0 } },
+        auto_recover: k % 2 == 0,
+        max_checkpoints: if k % 5 == 4 { None } else { Some(2) },
+    }
+}
+
+fn collect<T: ironbeam::RFBound>(p: &Pipeline, c: PCollection<T>, exec: Exec) -> Result<anyhow::Result<Vec<T>>, String> {
+    let p = p.clone();
     guarded(move || match exec {
+        // the public helpers the property is observed at
         Exec::Seq => c.collect_seq(),
         Exec::Par(n) => c.collect_par(THREADS, Some(n)),
         Exec::ParNone => c.collect_par(THREADS, None),
+        // what the helpers do, with a checkpoint configuration added
+        Exec::CkSeq => Runner { mode: ExecMode::Sequential, checkpoint_config: Some(ck_config()), ..Default::default() }.run_collect::<T>(&p, c.node_id()),
+        Exec::CkPar(n) => Runner { mode: ExecMode::Parallel { threads: THREADS, partitions: Some(n) }, checkpoint_config: Some(ck_config()), ..Default::default() }.run_collect::<T>(&p, c.node_id()),
     })
 }
 
@@ -222,7 +288,7 @@ fn run_rec(mode: Mode, short: bool, coll: &Coll, arc: &Arc<Mutex<ErrorCollector>
     } else {
         src.validate_with_mode(mode.real(), if coll.present { Some(Arc::clone(arc)) } else { None })
     };
-    let out = flatten_run(collect(v, exec), enc_rec);
+    let out = flatten_run(collect(&p, v, exec), enc_rec);
     let (log, count) = read_collector(arc);
     Obs { out, log, count }
 }
@@ -238,7 +304,7 @@ fn run_kv(mode: Mode, short: bool, coll: &Coll, arc: &Arc<Mutex<ErrorCollector>>
     } else {
         src.validate_values_with_mode(mode.real(), if coll.present { Some(Arc::clone(arc)) } else { None })
     };
-    let out = flatten_run(collect(v, exec), enc_kv);
+    let out = flatten_run(collect(&p, v, exec), enc_kv);
     let (log, count) = read_collector(arc);
     Obs { out, log, count }
 }
@@ -253,21 +319,38 @@ fn parse_panic(msg: &str, keyed: bool) -> Option<(usize, String)> {
     Some((idx, codes))
 }
 
-fn canon_answer(obs: &Obs, coll: &Coll, exec: Exec, keyed: bool) -> String {
+/// how the rows / entries of an answer are ordered
+#[derive(Clone, Copy, PartialEq, Eq)]
+enum Canon {
+    /// as the run returned them
+    Plain,
+    /// the request has a barrier (`gbk`): rows leave it in `HashMap` order -> kept rows sorted, log sorted without ids
+    HashOrder,
+    /// a join emits its rows in the `HashMap` order of the keys -> kept rows sorted (ids of the log are deterministic)
+    KeptSorted,
+}
+
+fn canon_answer_c(obs: &Obs, coll: &Coll, exec: Exec, keyed: bool, canon: Canon) -> String {
     let k = coll.init.len().min(obs.log.len());
     let pre: Vec<String> = obs.log[..k].iter().map(enc_entry).collect();
-    let mut log: Vec<String> = obs.log[k..].iter().map(|e| if exec == Exec::ParNone { format!("E{}", e.1) } else { enc_entry(e) }).collect();
-    if exec != Exec::Seq { log.sort(); }
+    let no_ids = exec == Exec::ParNone || canon == Canon::HashOrder;
+    let mut log: Vec<String> = obs.log[k..].iter().map(|e| if no_ids { format!("E{}", e.1) } else { enc_entry(e) }).collect();
+    if !exec.is_seq() || canon == Canon::HashOrder { log.sort(); }
     match &obs.out {
-        Ok(kept) => format!("OK kept={} pre={} log={}", join_or_dash(kept.clone()), join_or_dash(pre), join_or_dash(log)),
+        Ok(kept) => {
+            let mut kept = kept.clone();
+            if canon != Canon::Plain { kept.sort(); }
+            format!("OK kept={} pre={} log={}", join_or_dash(kept), join_or_dash(pre), join_or_dash(log))
+        }
         Err(msg) if msg.starts_with("ERR ") => "ERR".to_string(),
-        Err(msg) => match (exec, parse_panic(msg, keyed)) {
-            (Exec::Seq, Some((i, cs))) => format!("PANIC at={i}:E{cs}"),
-            (Exec::Seq, None) => "PANIC unparsed".to_string(),
+        Err(msg) => match (exec.is_seq(), parse_panic(msg, keyed)) {
+            (true, Some((i, cs))) => format!("PANIC at={i}:E{cs}"),
+            (true, None) => "PANIC unparsed".to_string(),
             (_, _) => "PANIC".to_string(),
         },
     }
 }
+fn canon_answer(obs: &Obs, coll: &Coll, exec: Exec, keyed: bool) -> String { canon_answer_c(obs, coll, exec, keyed, Canon::Plain) }
 
 /// The part of the property's statement that is about the collector object itself (any request kind):
 /// what was in it before the run is still there, in front and unchanged; its two accessors agree.
@@ -286,7 +369,7 @@ fn oracle_collector(cx: &mut Ctx, i: usize, coll: &Coll, obs: &Obs) -> Vec<Entry
 
 /// The property's own statement on one observed run. `recs` = the records in input order (values for kv),
 /// `toks` = their row tokens.
-fn oracle(cx: &mut Ctx, i: usize, mode: Mode, coll: &Coll, keyed: bool, recs: &[&Rec], toks: &[String], obs: &Obs) {
+fn oracle(cx: &mut Ctx, i: usize, mode: Mode, coll: &Coll, keyed: bool, exec: Exec, recs: &[&Rec], toks: &[String], obs: &Obs) {
     let valid_toks: Vec<String> = recs.iter().zip(toks).filter(|(r, _)| r.errs.is_none()).map(|(_, t)| t.clone()).collect();
     let invalid_in_order: Vec<String> = recs.iter().filter_map(|r| r.errs.as_ref().map(|cs| digits(cs))).collect();
     let mut invalid_errs = invalid_in_order.clone();
@@ -327,6 +410,16 @@ fn oracle(cx: &mut Ctx, i: usize, mode: Mode, coll: &Coll, keyed: bool, recs: &[
             if k.len() + new.len() != recs.len() {
                 cx.oracle_fail(i, "counts-do-not-add-up", format!("{} kept + {} logged != {} input", k.len(), new.len(), recs.len()));
             }
+            // one partition (sequential run, or one partition asked for): the entry of an invalid record names that
+            // record by its position in the input, and the entries come in input order
+            if exec.is_seq() || exec.parts() == Some(1) {
+                let pfx = if keyed { "pair_" } else { "record_" };
+                let want: Vec<Entry> = recs.iter().enumerate().filter_map(|(j, r)| r.errs.as_ref().map(|cs| (format!("{pfx}{j}"), digits(cs)))).collect();
+                if new != want {
+                    let at = new.iter().zip(&want).position(|(a, b)| a != b).unwrap_or(new.len().min(want.len()));
+                    cx.oracle_fail(i, "one-partition-log-not-the-invalid-records-by-position", format!("{} entries, {} expected; first difference at entry {at}: got {:?} expected {:?}", new.len(), want.len(), new.get(at), want.get(at)));
+                }
+            }
         }
     } else if !logged.is_empty() {
         cx.oracle_fail(i, "logged-outside-log-mode", format!("mode {} coll={}: the run added {} entries", mode.tok(), coll.tok(), logged.len()));
@@ -345,7 +438,7 @@ fn case_rec_on(cx: &mut Ctx, mode: Mode, short: bool, coll: &Coll, arc: &Arc<Mut
     let nt = rows.iter().any(|r| r.errs.is_some()) && rows.iter().any(|r| r.errs.is_none());
     let i = cx.case(req, canon_answer(&obs, coll, exec, false), nt);
     let recs: Vec<&Rec> = rows.iter().collect();
-    oracle(cx, i, mode, coll, false, &recs, &toks, &obs);
+    oracle(cx, i, mode, coll, false, exec, &recs, &toks, &obs);
     stats(cx, mode, false, coll, exec, rows.len(), &obs);
     obs
 }
@@ -357,7 +450,7 @@ fn case_kv_on(cx: &mut Ctx, mode: Mode, short: bool, coll: &Coll, arc: &Arc<Mute
     let nt = rows.iter().any(|r| r.1.errs.is_some()) && rows.iter().any(|r| r.1.errs.is_none());
     let i = cx.case(req, canon_answer(&obs, coll, exec, true), nt);
     let recs: Vec<&Rec> = rows.iter().map(|r| &r.1).collect();
-    oracle(cx, i, mode, coll, true, &recs, &toks, &obs);
+    oracle(cx, i, mode, coll, true, exec, &recs, &toks, &obs);
     stats(cx, mode, true, coll, exec, rows.len(), &obs);
     obs
 }
@@ -379,7 +472,7 @@ fn case_kv(cx: &mut Ctx, mode: Mode, short: bool, coll: bool, exec: Exec, rows: 
 /// the collector. The first run is sequential or one partition, so that this content (and with it the second
 /// request line) does not depend on scheduling.
 fn case_reuse(cx: &mut Ctx, keyed: bool, coll0: &Coll, exec1: Exec, rows1: &[Rec], mode2: Mode, exec2: Exec, rows2: &[Rec]) {
-    assert!(matches!(exec1, Exec::Seq | Exec::Par(1)) && coll0.present);
+    assert!(matches!(exec1, Exec::Seq | Exec::Par(1) | Exec::CkSeq | Exec::CkPar(1)) && coll0.present);
     let arc = coll0.build();
     let obs1 = if keyed { case_kv_on(cx, Mode::Log, false, coll0, &arc, exec1, &mk_kv(rows1)) } else { case_rec_on(cx, Mode::Log, false, coll0, &arc, exec1, rows1) };
     let coll1 = Coll { present: true, poisoned: coll0.poisoned, init: obs1.log.clone() };
@@ -390,7 +483,7 @@ fn case_reuse(cx: &mut Ctx, keyed: bool, coll0: &Coll, exec1: Exec, rows1: &[Rec
 fn stats(cx: &mut Ctx, mode: Mode, keyed: bool, coll: &Coll, exec: Exec, len: usize, obs: &Obs) {
     cx.count(&format!("mode:{}", mode.tok()));
     cx.count(if keyed { "shape:kv" } else { "shape:rec" });
-    cx.count(match exec { Exec::Seq => "exec:seq", Exec::ParNone => "exec:par-none", Exec::Par(1) => "exec:par1", Exec::Par(n) if n >= len.max(1) => "exec:par>=len", Exec::Par(_) => "exec:par<len" });
+    cx.count(match exec { Exec::Seq => "exec:seq", Exec::ParNone => "exec:par-none", Exec::Par(1) => "exec:par1", Exec::Par(n) if n >= len.max(1) => "exec:par>=len", Exec::Par(_) => "exec:par<len", Exec::CkSeq => "exec:checkpointing-seq", Exec::CkPar(_) => "exec:checkpointing-par" });
     cx.count(match len { 0 => "len:0", 1 => "len:1", 2..=6 => "len:2-6", 7..=30 => "len:7-30", _ => "len:31+" });
     cx.count(if obs.out.is_ok() { "outcome:ok" } else { "outcome:panic" });
     if obs.log.len() > coll.init.len() { cx.count("collector:run-added-entries"); }
@@ -504,9 +597,17 @@ fn one_combine(cx: &mut Ctx, parts: &[Option<Vec<u8>>]) {
 // ---------------------------------------------------------------- fused blocks through the planner (VPIPE)
 
 #[derive(Clone, Copy, PartialEq, Eq, Debug)]
-enum Step { Inc, Heal, Brk, Odd, Val }
+enum Step { Inc, Heal, Brk, Odd, Val, Gbk }
 impl Step {
-    fn tok(self) -> &'static str { match self { Step::Inc => "inc", Step::Heal => "heal", Step::Brk => "brk", Step::Odd => "odd", Step::Val => "val" } }
+    fn tok(self) -> &'static str { match self { Step::Inc => "inc", Step::Heal => "heal", Step::Brk => "brk", Step::Odd => "odd", Step::Val => "val", Step::Gbk => "gbk" } }
+}
+/// `gbk` on keyed rows: a barrier (`group_by_key`) and the ungrouping `flat_map`
+fn gbk_kv(c: PCollection<(i64, Rec)>) -> PCollection<(i64, Rec)> {
+    c.group_by_key().flat_map(|g: &(i64, Vec<Rec>)| g.1.iter().map(|r| (g.0, r.clone())).collect())
+}
+/// `gbk` on unkeyed rows: `key_by(key_of(id))`, the barrier, and the ungrouping `flat_map` back to records
+fn gbk_rec(c: PCollection<Rec>) -> PCollection<Rec> {
+    c.key_by(|r: &Rec| key_of(r.id)).group_by_key().flat_map(|g: &(i64, Vec<Rec>)| g.1.clone())
 }
 fn step_inc(r: &Rec) -> Rec { Rec { id: r.id, errs: r.errs.as_ref().map(|cs| cs.iter().map(|c| (c + 1) % 10).collect()) } }
 fn step_heal(r: &Rec) -> Rec {
@@ -540,9 +641,10 @@ fn case_vpipe(cx: &mut Ctx, mode: Mode, keyed: bool, coll: &Coll, exec: Exec, st
                 Step::Brk => c.map_values(|r: &Rec| step_brk(r)),
                 Step::Odd => c.filter_values(|r: &Rec| step_odd(r)),
                 Step::Val => c.validate_values_with_mode(mode.real(), handle()),
+                Step::Gbk => gbk_kv(c),
             };
         }
-        (flatten_run(collect(c, exec), enc_kv), rows.iter().map(enc_kv).collect())
+        (flatten_run(collect(&p, c, exec), enc_kv), rows.iter().map(enc_kv).collect())
     } else {
         let recs: Vec<Rec> = rows.iter().map(|kv| kv.1.clone()).collect();
         let toks = recs.iter().map(enc_rec).collect();
@@ -554,20 +656,28 @@ fn case_vpipe(cx: &mut Ctx, mode: Mode, keyed: bool, coll: &Coll, exec: Exec, st
                 Step::Brk => c.map(|r: &Rec| step_brk(r)),
                 Step::Odd => c.filter(|r: &Rec| step_odd(r)),
                 Step::Val => c.validate_with_mode(mode.real(), handle()),
+                Step::Gbk => gbk_rec(c),
             };
         }
-        (flatten_run(collect(c, exec), enc_rec), toks)
+        (flatten_run(collect(&p, c, exec), enc_rec), toks)
     };
     let (log, count) = read_collector(&collector);
     let obs = Obs { out, log, count };
     let req = format!("VPIPE {} {} {} {} {} {}", mode.tok(), if keyed { "kv" } else { "rec" }, coll.tok(), exec.tok(), steps_tok(steps), join_or_dash(toks));
     // the panic index depends on what the earlier steps dropped; compare only the fact for VPIPE
-    let ans = match canon_answer(&obs, coll, exec, keyed) {
+    let barrier = steps.contains(&Step::Gbk);
+    let ans = match canon_answer_c(&obs, coll, exec, keyed, if barrier { Canon::HashOrder } else { Canon::Plain }) {
         a if a.starts_with("PANIC") => "PANIC".to_string(),
         a => a,
     };
     let i = cx.case(req, ans, true);
     cx.count(if keyed { "vpipe:kv" } else { "vpipe:rec" });
+    if exec.is_ck() { cx.count("vpipe:checkpointing-engine"); }
+    if barrier {
+        cx.count("vpipe:with-barrier");
+        let b = steps.iter().position(|s| *s == Step::Gbk).unwrap();
+        if steps[b..].contains(&Step::Val) { cx.count("vpipe:validator-behind-a-barrier"); }
+    }
     if steps.iter().filter(|s| **s == Step::Val).count() >= 2 { cx.count("vpipe:two-or-more-validators-share-the-collector"); }
     coll_stats(cx, coll);
     // oracle: the steps as written, record by record (every step is element-wise)
@@ -581,6 +691,8 @@ fn case_vpipe(cx: &mut Ctx, mode: Mode, keyed: bool, coll: &Coll, exec: Exec, st
             Step::Heal => cur = cur.iter().map(|(k, r)| (*k, step_heal(r))).collect(),
             Step::Brk => cur = cur.iter().map(|(k, r)| (*k, step_brk(r))).collect(),
             Step::Odd => cur.retain(|(_, r)| step_odd(r)),
+            // a barrier regroups the rows; which rows there are does not change
+            Step::Gbk => {}
             Step::Val => {
                 let before = want_log.len();
                 for (_, r) in &cur {
@@ -601,7 +713,11 @@ fn case_vpipe(cx: &mut Ctx, mode: Mode, keyed: bool, coll: &Coll, exec: Exec, st
     got_log.sort();
     match &obs.out {
         Ok(kept) => {
-            let want: Vec<String> = cur.iter().map(|kv| if keyed { enc_kv(kv) } else { enc_rec(&kv.1) }).collect();
+            let mut want: Vec<String> = cur.iter().map(|kv| if keyed { enc_kv(kv) } else { enc_rec(&kv.1) }).collect();
+            let mut kept = kept.clone();
+            // behind a barrier the order is the hasher's: compare as multisets
+            if barrier { want.sort(); kept.sort(); }
+            let kept = &kept;
             if want_fail {
                 cx.oracle_fail(i, "vpipe-failfast-passed-with-invalid-record", format!("returned {} rows", kept.len()));
             } else if *kept != want {
@@ -617,6 +733,157 @@ fn case_vpipe(cx: &mut Ctx, mode: Mode, keyed: bool, coll: &Coll, exec: Exec, st
             }
         }
     }
+}
+
+// ---------------------------------------------------------------- a join whose sides validate (VJOIN)
+
+fn apply_kv_step(c: PCollection<(i64, Rec)>, s: Step, mode: Mode, handle: &dyn Fn() -> Option<Arc<Mutex<ErrorCollector>>>) -> PCollection<(i64, Rec)> {
+    match s {
+        Step::Inc => c.map_values(|r: &Rec| step_inc(r)),
+        Step::Heal => c.map_values(|r: &Rec| step_heal(r)),
+        Step::Brk => c.map_values(|r: &Rec| step_brk(r)),
+        Step::Odd => c.filter_values(|r: &Rec| step_odd(r)),
+        Step::Val => c.validate_values_with_mode(mode.real(), handle()),
+        Step::Gbk => gbk_kv(c),
+    }
+}
+
+/// the steps of one side as written, record by record: (rows that reach the join, error lists logged, fail-fast fails)
+fn side_as_written(steps: &[Step], rows: &[(i64, Rec)], mode: Mode, logging: bool) -> (Vec<(i64, Rec)>, Vec<String>, bool) {
+    let mut cur = rows.to_vec();
+    let mut log = vec![];
+    let mut fail = false;
+    for s in steps {
+        match s {
+            Step::Inc => cur = cur.iter().map(|(k, r)| (*k, step_inc(r))).collect(),
+            Step::Heal => cur = cur.iter().map(|(k, r)| (*k, step_heal(r))).collect(),
+            Step::Brk => cur = cur.iter().map(|(k, r)| (*k, step_brk(r))).collect(),
+            Step::Odd => cur.retain(|(_, r)| step_odd(r)),
+            Step::Gbk => {}
+            Step::Val => {
+                for (_, r) in &cur {
+                    if let Some(cs) = &r.errs {
+                        if logging { log.push(digits(cs)); }
+                        if mode == Mode::Ff { fail = true; }
+                    }
+                }
+                cur.retain(|(_, r)| r.errs.is_none());
+            }
+        }
+    }
+    (cur, log, fail)
+}
+
+fn enc_joined(row: &(i64, (Rec, Rec))) -> String { format!("{}={}&{}", row.0, enc_rec(&row.1.0), enc_rec(&row.1.1)) }
+fn side_tok(steps: &[Step]) -> String { if steps.is_empty() { "-".into() } else { steps_tok(steps) } }
+
+/// `left.steps.join_inner(right.steps)`; every validator of both sides shares the one collector
+fn case_vjoin(cx: &mut Ctx, mode: Mode, coll: &Coll, exec: Exec, lsteps: &[Step], lrows: &[(i64, Rec)], rsteps: &[Step], rrows: &[(i64, Rec)]) {
+    assert!(exec != Exec::ParNone && !lsteps.contains(&Step::Gbk) && !rsteps.contains(&Step::Gbk));
+    let collector = coll.build();
+    let handle = || if coll.present { Some(Arc::clone(&collector)) } else { None };
+    let p = Pipeline::default();
+    let mut l = from_vec(&p, lrows.to_vec());
+    for s in lsteps { l = apply_kv_step(l, *s, mode, &handle); }
+    let mut r = from_vec(&p, rrows.to_vec());
+    for s in rsteps { r = apply_kv_step(r, *s, mode, &handle); }
+    let j = l.join_inner(&r);
+    let out = flatten_run(collect(&p, j, exec), enc_joined);
+    let (log, count) = read_collector(&collector);
+    let obs = Obs { out, log, count };
+    let req = format!(
+        "VJOIN {} {} {} {} {} {} {}",
+        mode.tok(), coll.tok(), exec.tok(), side_tok(lsteps), join_or_dash(lrows.iter().map(enc_kv).collect()), side_tok(rsteps), join_or_dash(rrows.iter().map(enc_kv).collect())
+    );
+    let ans = match canon_answer_c(&obs, coll, exec, true, Canon::KeptSorted) {
+        a if a.starts_with("PANIC") => "PANIC".to_string(),
+        a => a,
+    };
+    let i = cx.case(req, ans, true);
+    cx.count("vjoin");
+    if exec.is_ck() { cx.count("vjoin:checkpointing-engine"); }
+    coll_stats(cx, coll);
+    // oracle: each side as written, then every pair of a left and a right row with equal keys
+    let logging = mode == Mode::Log && coll.present;
+    let (lcur, mut want_log, lfail) = side_as_written(lsteps, lrows, mode, logging);
+    let (rcur, rlog, rfail) = side_as_written(rsteps, rrows, mode, logging);
+    if !want_log.is_empty() && !rlog.is_empty() { cx.count("vjoin:both-sides-logged"); }
+    want_log.extend(rlog);
+    want_log.sort();
+    let want_fail = lfail || rfail;
+    let mut want: Vec<String> = vec![];
+    for (k, a) in &lcur { for (k2, b) in &rcur { if k == k2 { want.push(enc_joined(&(*k, (a.clone(), b.clone())))); } } }
+    want.sort();
+    if !want.is_empty() { cx.count("vjoin:non-empty-result"); }
+    let new = oracle_collector(cx, i, coll, &obs);
+    let mut got_log: Vec<String> = new.iter().map(|x| x.1.clone()).collect();
+    got_log.sort();
+    match &obs.out {
+        Ok(kept) => {
+            let mut kept = kept.clone();
+            kept.sort();
+            if want_fail {
+                cx.oracle_fail(i, "vjoin-failfast-passed-with-invalid-record", format!("returned {} rows", kept.len()));
+            } else if kept != want {
+                cx.oracle_fail(i, "vjoin-output-not-the-join-of-the-valid-records", format!("expected {want:?} got {kept:?}"));
+            } else if got_log != want_log {
+                cx.oracle_fail(i, "vjoin-collector-not-the-invalid-records-of-both-sides", format!("expected {want_log:?} got {got_log:?}"));
+            }
+        }
+        Err(m) => {
+            if !want_fail {
+                let sig = if coll.poisoned && m.contains("PoisonError") { "skip-or-log-run-failed-on-poisoned-collector" } else { "vjoin-run-failed" };
+                cx.oracle_fail(i, sig, m.clone());
+            }
+        }
+    }
+}
+
+// ---------------------------------------------------------------- one large input (BIG)
+
+const HASH_MOD: u64 = 1_000_000_007;
+fn str_hash(s: &str) -> u64 { s.chars().fold(7u64, |h, c| (h * 131 + c as u64) % HASH_MOD) }
+fn seq_hash<'a>(l: impl Iterator<Item = &'a String>) -> u64 { l.fold(1u64, |h, s| (h * 1_000_003 + str_hash(s)) % HASH_MOD) }
+fn sum_hash<'a>(l: impl Iterator<Item = &'a String>) -> u64 { l.fold(0u64, |h, s| (h + str_hash(s)) % HASH_MOD) }
+
+/// row `i` of a BIG input: pattern `v`: valid iff `i % period == period - 1`; pattern `i` (`inv`): INVALID iff
+/// `i % period == period - 1`; an invalid row has four errors spelling `i` backwards
+fn big_rec(period: usize, inv: bool, i: usize) -> Rec {
+    Rec { id: i as i64, errs: if (i % period == period - 1) != inv { None } else { Some(vec![(i % 10) as u8, (i / 10 % 10) as u8, (i / 100 % 10) as u8, (i / 1000 % 10) as u8]) } }
+}
+
+/// `len` formula-generated rows (`len - len / period` of them invalid, each with its own payload) through one
+/// validator. The request names the formula, the compared answer is counts + checksums (the model regenerates the
+/// rows); the property's statement is evaluated in full on the real result.
+fn case_big(cx: &mut Ctx, mode: Mode, keyed: bool, coll: &Coll, exec: Exec, len: usize, period: usize, inv: bool) {
+    assert!(exec != Exec::ParNone && period >= 1);
+    let recs: Vec<Rec> = (0..len).map(|i| big_rec(period, inv, i)).collect();
+    let arc = coll.build();
+    let (obs, toks): (Obs, Vec<String>) = if keyed {
+        let kv = mk_kv(&recs);
+        (run_kv(mode, false, coll, &arc, exec, &kv), kv.iter().map(enc_kv).collect())
+    } else {
+        (run_rec(mode, false, coll, &arc, exec, &recs), recs.iter().map(enc_rec).collect())
+    };
+    let req = format!("BIG {} {} {} {} {len} {period} {}", mode.tok(), if keyed { "kv" } else { "rec" }, coll.tok(), exec.tok(), if inv { "i" } else { "v" });
+    let k = coll.init.len().min(obs.log.len());
+    let ans = match &obs.out {
+        Ok(kept) => {
+            let rest: Vec<String> = obs.log[k..].iter().map(enc_entry).collect();
+            format!(
+                "OK kept={} khash={} pre={} log={} lsum={} lseq={}",
+                kept.len(), seq_hash(kept.iter()), join_or_dash(obs.log[..k].iter().map(enc_entry).collect()), rest.len(), sum_hash(rest.iter()),
+                if exec.is_seq() { seq_hash(rest.iter()) } else { 0 }
+            )
+        }
+        Err(_) => canon_answer(&obs, coll, exec, keyed),
+    };
+    let i = cx.case(req, ans, true);
+    cx.count("big-runs");
+    if exec.is_ck() { cx.count("big:checkpointing-engine"); }
+    if let Some(n) = exec.parts() { if n >= len { cx.count("big:one-record-per-partition"); } }
+    let refs: Vec<&Rec> = recs.iter().collect();
+    oracle(cx, i, mode, coll, keyed, exec, &refs, &toks, &obs);
 }
 
 // ---------------------------------------------------------------- generators
@@ -685,6 +952,28 @@ fn random_pattern(cx: &mut Ctx, len: usize) -> Vec<Option<Vec<u8>>> {
     v
 }
 
+/// every (mode, api, shape, collector state) combination of the exhaustive blocks for one input and one engine;
+/// `few`: also the collector-less / convenience forms and skip / fail-fast on the used collector states (they add
+/// nothing per partition count)
+fn exhaustive_one(cx: &mut Ctx, used: &[Coll], rows: &[Rec], kv: &[(i64, Rec)], e: Exec, few: bool) {
+    for (m, short, coll) in variants(false) {
+        if (short || !coll) && !few { continue; }
+        case_rec(cx, m, short, coll, e, rows);
+    }
+    for (m, short, coll) in variants(true) {
+        if (short || !coll) && !few { continue; }
+        case_kv(cx, m, short, coll, e, kv);
+    }
+    // collector-state dimension: a used (pre-populated / poisoned / both) collector
+    for st in used {
+        for m in MODES {
+            if m != Mode::Log && !few { continue; }
+            case_rec_c(cx, m, false, st, e, rows);
+            case_kv_c(cx, m, false, st, e, kv);
+        }
+    }
+}
+
 pub fn run(cx: &mut Ctx) {
     let used = used_states();
     // ---- (1) corpus: design witnesses / minimised past failures
@@ -750,6 +1039,39 @@ pub fn run(cx: &mut Ctx) {
         }
     }
 
+    {
+        // a validator applied twice by the engine would log twice (result-neutral: re-validating kept rows changes
+        // nothing) — the checkpointing engines, sequential and parallel, on the design-witness inputs
+        let rows = mk_rows(&[None, Some(vec![1]), None, Some(vec![2])]);
+        for e in [Exec::CkSeq, Exec::CkPar(1), Exec::CkPar(2), Exec::CkPar(4)] {
+            for (m, short, coll) in variants(false) { case_rec(cx, m, short, coll, e, &rows); }
+            for (m, short, coll) in variants(true) { case_kv(cx, m, short, coll, e, &mk_kv(&rows)); }
+            case_rec_c(cx, Mode::Log, false, &used[2], e, &rows);
+        }
+        for keyed in [false, true] {
+            case_reuse(cx, keyed, &Coll::fresh(), Exec::CkSeq, &rows, Mode::Log, Exec::CkPar(2), &rows);
+        }
+        // a validator behind a barrier, and validators on both sides of it
+        let kv = mk_kv(&mk_rows(&[None, Some(vec![1]), None, None, Some(vec![4, 6]), None, None]));
+        for keyed in [true, false] {
+            for m in MODES {
+                for e in [Exec::Seq, Exec::Par(3), Exec::CkSeq, Exec::CkPar(3)] {
+                    case_vpipe(cx, m, keyed, &Coll::fresh(), e, &[Step::Gbk, Step::Val], &kv);
+                    case_vpipe(cx, m, keyed, &Coll::fresh(), e, &[Step::Val, Step::Brk, Step::Gbk, Step::Val, Step::Odd], &kv);
+                }
+            }
+        }
+        // a join whose sides validate (left: 2 invalid of 5, right: 1 invalid of 4; keys overlap)
+        let l: Vec<(i64, Rec)> = vec![(1, Rec { id: 0, errs: None }), (2, Rec { id: 1, errs: Some(vec![1]) }), (1, Rec { id: 2, errs: None }), (3, Rec { id: 3, errs: Some(vec![2, 3]) }), (2, Rec { id: 4, errs: None })];
+        let r: Vec<(i64, Rec)> = vec![(2, Rec { id: 10, errs: None }), (1, Rec { id: 11, errs: Some(vec![]) }), (1, Rec { id: 12, errs: None }), (4, Rec { id: 13, errs: None })];
+        for m in MODES {
+            for e in [Exec::Seq, Exec::Par(2), Exec::Par(64), Exec::CkSeq, Exec::CkPar(2)] {
+                case_vjoin(cx, m, &Coll::fresh(), e, &[Step::Val], &l, &[Step::Val], &r);
+                case_vjoin(cx, m, &used[0], e, &[Step::Val], &l, &[], &r);
+            }
+        }
+    }
+
     // ---- (2) exhaustive small scope
     // sizes of exhaustive blocks are fixed per tier (the search tier only enlarges the random block)
     let maxlen = if cx.tier == Tier::Thorough { 7 } else { 6 };
@@ -762,23 +1084,7 @@ pub fn run(cx: &mut Ctx) {
             npat += 1;
             for e in all_execs(maxlen + 1) {
                 let few = matches!(e, Exec::Seq | Exec::Par(2) | Exec::Par(3));
-                for (m, short, coll) in variants(false) {
-                    // collector-less / short forms only sequentially and for two partition counts (they add nothing per n)
-                    if (short || !coll) && !few { continue; }
-                    case_rec(cx, m, short, coll, e, &rows);
-                }
-                for (m, short, coll) in variants(true) {
-                    if (short || !coll) && !few { continue; }
-                    case_kv(cx, m, short, coll, e, &kv);
-                }
-                // collector-state dimension: a used (pre-populated / poisoned / both) collector
-                for st in &used {
-                    for m in MODES {
-                        if m != Mode::Log && !few { continue; }
-                        case_rec_c(cx, m, false, st, e, &rows);
-                        case_kv_c(cx, m, false, st, e, &kv);
-                    }
-                }
+                exhaustive_one(cx, &used, &rows, &kv, e, few);
             }
         }
     }
@@ -786,6 +1092,30 @@ pub fn run(cx: &mut Ctx) {
         "VALIDATE: all {npat} valid/invalid patterns of 0..={maxlen} records (invalid payloads: 1, 2, 0 and 3 errors by position) x (sequential + partitions 1..={}) x 3 modes with collector x keyed/unkeyed; collector-less and convenience builders at seq, 2 and 3 partitions; collector states: fresh, pre-populated with 5 entries (ids record_0/1, pair_0/1, none), poisoned, poisoned + pre-populated (log mode at every partition count, skip/fail-fast at seq, 2, 3)",
         maxlen + 1
     ));
+    // the same block through `Runner {{ checkpoint_config: Some(enabled) }}`: `exec_seq_with_checkpointing` is a second
+    // copy of the node loop, `exec_par_with_checkpointing` wraps `exec_par`; same requests, same oracles
+    {
+        let cklen = if cx.tier == Tier::Thorough { 7 } else { 5 };
+        let mut nck = 0usize;
+        for len in 0..=cklen {
+            for bits in 0u32..(1 << len) {
+                let rows = mk_rows(&bits_pattern(len, bits));
+                let kv = mk_kv(&rows);
+                nck += 1;
+                for e in all_execs(cklen + 1) {
+                    let few = matches!(e, Exec::Seq | Exec::Par(2) | Exec::Par(3));
+                    // quick tier: every partition count for the sequential engine's second node loop and for 1..=3
+                    // partitions of the wrapper; all of them in the thorough tier
+                    if cx.tier != Tier::Thorough && !(few || e == Exec::Par(1) || e == Exec::Par(cklen + 1)) { continue; }
+                    exhaustive_one(cx, &used, &rows, &kv, e.ck(), few);
+                }
+            }
+        }
+        cx.exhaustive_blocks.push(format!(
+            "VALIDATE with checkpointing ENABLED (Runner {{ checkpoint_config }}; policies AfterEveryBarrier / EveryNNodes(1) / Hybrid(0 s), auto_recover on/off, retention 2/None in rotation; one scratch directory, so files left by failed fail-fast runs are met by later recoveries): all {nck} patterns of 0..={cklen} records x (exec_seq_with_checkpointing + exec_par_with_checkpointing at {}) x the same mode / shape / collector-state dimensions and the same oracles as the block above",
+            if cx.tier == Tier::Thorough { format!("partitions 1..={}", cklen + 1) } else { format!("partitions 1, 2, 3, {}", cklen + 1) }
+        ));
+    }
     // one collector, two runs: every pattern of 0..=rl records as the SECOND run
     {
         let rl = if cx.tier == Tier::Thorough { 5 } else { 4 };
@@ -851,6 +1181,90 @@ pub fn run(cx: &mut Ctx) {
         cx.exhaustive_blocks.push(format!("VPIPE: all {nseq} sequences of 1..=4 steps over {{inc, heal, brk, odd, val}} with at least one validator (all validators of a sequence share one collector) x keyed (map_values/filter_values/validate_values) and unkeyed (map/filter/validate) x 3 modes x seq/3 partitions, through the real planner; log mode also on a pre-populated and on a poisoned pre-populated collector"));
     }
 
+    // ---- (2a) fused blocks with a barrier: every sequence of 2..=4 tokens with a `gbk` and a validator
+    {
+        let kv = mk_kv(&mk_rows(&[None, Some(vec![1]), Some(vec![2]), None, Some(vec![4, 6]), None, None, Some(vec![3])]));
+        let alphabet = [Step::Inc, Step::Heal, Step::Brk, Step::Odd, Step::Val, Step::Gbk];
+        let mut seqs: Vec<Vec<Step>> = vec![];
+        let mut layer: Vec<Vec<Step>> = vec![vec![]];
+        for _ in 0..4 {
+            let mut next = vec![];
+            for s in &layer { for o in alphabet { let mut t = s.clone(); t.push(o); next.push(t); } }
+            seqs.extend(next.iter().filter(|s| s.contains(&Step::Val) && s.contains(&Step::Gbk)).cloned());
+            layer = next;
+        }
+        let nseq = seqs.len();
+        let thorough = cx.tier == Tier::Thorough;
+        for (si, steps) in seqs.iter().enumerate() {
+            for keyed in [true, false] {
+                for m in MODES {
+                    // quick tier: the shapes alternate over the sequences for skip / fail-fast; log mode gets both
+                    if !thorough && m != Mode::Log && (si % 2 == 0) != keyed { continue; }
+                    for e in [Exec::Seq, Exec::Par(3)] {
+                        case_vpipe(cx, m, keyed, &Coll::fresh(), e, steps, &kv);
+                    }
+                    if m == Mode::Log {
+                        let e = if si % 2 == 0 { Exec::CkSeq } else { Exec::CkPar(3) };
+                        case_vpipe(cx, m, keyed, &used[0], e, steps, &kv);
+                        if thorough {
+                            case_vpipe(cx, m, keyed, &used[2], e.ck(), steps, &kv);
+                            case_vpipe(cx, m, keyed, &used[0], if si % 2 == 0 { Exec::CkPar(3) } else { Exec::CkSeq }, steps, &kv);
+                        }
+                    }
+                }
+            }
+        }
+        cx.exhaustive_blocks.push(format!("VPIPE with barriers: all {nseq} sequences of 2..=4 tokens over {{inc, heal, brk, odd, val, gbk}} with at least one validator and one `gbk` (group_by_key + ungrouping flat_map; unkeyed: key_by in front) x keyed/unkeyed x 3 modes x seq/3 partitions (quick tier: skip / fail-fast on one shape per sequence), log mode also on a pre-populated collector through a checkpointing engine; rows and logged error lists compared as multisets (hasher order)"));
+    }
+    // ---- (2a') joins whose sides validate
+    {
+        let l = mk_kv(&mk_rows(&[None, Some(vec![1]), Some(vec![2]), None, Some(vec![4, 6]), None, None]));
+        let r: Vec<(i64, Rec)> = mk_kv(&mk_rows(&[Some(vec![]), None, None, Some(vec![7]), None])).into_iter().map(|(k, rec)| (k, Rec { id: rec.id + 20, errs: rec.errs })).collect();
+        let sides: Vec<Vec<Step>> = vec![vec![], vec![Step::Val], vec![Step::Inc, Step::Val], vec![Step::Heal, Step::Val, Step::Odd], vec![Step::Val, Step::Brk, Step::Val], vec![Step::Brk, Step::Val]];
+        let execs: Vec<Exec> = if cx.tier == Tier::Thorough { vec![Exec::Seq, Exec::Par(1), Exec::Par(2), Exec::Par(3), Exec::Par(7), Exec::CkSeq, Exec::CkPar(2), Exec::CkPar(3)] } else { vec![Exec::Seq, Exec::Par(3), Exec::CkSeq, Exec::CkPar(2)] };
+        let mut nj = 0usize;
+        for ls in &sides {
+            for rs in &sides {
+                if !ls.contains(&Step::Val) && !rs.contains(&Step::Val) { continue; }
+                nj += 1;
+                for m in MODES {
+                    for e in &execs {
+                        case_vjoin(cx, m, &Coll::fresh(), *e, ls, &l, rs, &r);
+                        if m == Mode::Log && matches!(e, Exec::Seq | Exec::CkPar(2)) { case_vjoin(cx, m, &used[2], *e, ls, &l, rs, &r); }
+                    }
+                }
+            }
+        }
+        cx.exhaustive_blocks.push(format!("VJOIN: join_inner of a 7-row and a 5-row keyed collection (keys 0..5 on both sides), each side one of 6 step lists ({nj} pairs with a validator on at least one side; both sides share mode and collector) x 3 modes x {} engines incl. the checkpointing ones; joined rows compared as a multiset, logged error lists as a multiset", execs.len()));
+    }
+    // ---- (2a'') one large input per engine: entry caps, chunk-local ids, long partitions
+    {
+        let (len, period) = (5000usize, 5usize);
+        for keyed in [false, true] {
+            for e in [Exec::Seq, Exec::Par(1), Exec::Par(3), Exec::Par(64), Exec::Par(5000), Exec::CkSeq, Exec::CkPar(3)] {
+                case_big(cx, Mode::Log, keyed, &Coll::fresh(), e, len, period, false);
+            }
+            case_big(cx, Mode::Log, keyed, &used[2], Exec::Par(64), len, period, false);
+            case_big(cx, Mode::Skip, keyed, &Coll::fresh(), Exec::Par(3), len, period, false);
+            case_big(cx, Mode::Ff, keyed, &Coll::fresh(), Exec::Seq, len, period, false);
+            case_big(cx, Mode::Ff, keyed, &Coll::none(), Exec::Par(64), len, 1, false);   // all 5000 valid
+            // only the LAST record is invalid: fail-fast must still fail, skip drops it, log names it
+            for e in [Exec::Seq, Exec::Par(3), Exec::CkSeq] {
+                for m in MODES { case_big(cx, m, keyed, &Coll::fresh(), e, len, len, true); }
+            }
+        }
+        if cx.tier == Tier::Thorough {
+            for keyed in [false, true] {
+                for e in [Exec::Seq, Exec::Par(7), Exec::Par(1000), Exec::CkPar(64)] {
+                    case_big(cx, Mode::Log, keyed, &Coll::fresh(), e, 20_000, 3, false);
+                    case_big(cx, Mode::Log, keyed, &Coll::fresh(), e, 4097, 5000, false);   // every row invalid
+                    for m in MODES { case_big(cx, m, keyed, &Coll::fresh(), e, 20_000, 4099, true); }   // 4 invalid rows, far apart
+                }
+            }
+        }
+        cx.exhaustive_blocks.push("BIG: 5 000 formula-generated rows, 4 000 of them invalid with pairwise different payloads, log mode, keyed/unkeyed x sequential / 1 / 3 / 64 / 5 000 partitions / both checkpointing engines (plus skip, fail-fast, an all-valid fail-fast run, a poisoned pre-populated collector, and 5 000 rows of which only the last is invalid in all three modes); full oracle on the real result, counts + checksums (ids included) compared with the model".to_string());
+    }
+
     // ---- (2b) contention block: many partitions pushing into the one collector at the same time
     {
         let len = 400usize;
@@ -885,6 +1299,8 @@ pub fn run(cx: &mut Ctx) {
         let vs = variants(keyed);
         let st = random_coll(cx);
         for e in some_execs(len) {
+            // one run in four goes through the checkpointing engine of its mode
+            let e = if cx.rng.chance(1, 4) { e.ck() } else { e };
             // log mode with collector on every partition count; one further variant per count
             let (xm, xshort, xcoll) = *cx.rng.pick(&vs);
             let xst = if xcoll { st.clone() } else { Coll::none() };
@@ -916,14 +1332,32 @@ pub fn run(cx: &mut Ctx) {
         // a random block with one or more validators, through the planner
         if cx.rng.chance(1, 2) {
             let k = 1 + cx.rng.below(6);
-            let mut steps: Vec<Step> = (0..k).map(|_| *cx.rng.pick(&[Step::Inc, Step::Heal, Step::Brk, Step::Odd, Step::Val, Step::Val])).collect();
+            let mut steps: Vec<Step> = (0..k).map(|_| *cx.rng.pick(&[Step::Inc, Step::Heal, Step::Brk, Step::Odd, Step::Val, Step::Val, Step::Val, Step::Gbk])).collect();
             if !steps.contains(&Step::Val) { let p = cx.rng.below(steps.len() + 1); steps.insert(p, Step::Val); }
             let m = *cx.rng.pick(&MODES);
-            let e = match cx.rng.below(8) { 0..=3 => Exec::Seq, 4 => Exec::ParNone, _ => Exec::Par(1 + cx.rng.below(len + 2)) };
+            let e = match cx.rng.below(10) { 0..=3 => Exec::Seq, 4 => Exec::ParNone, 5 => Exec::CkSeq, 6 => Exec::CkPar(1 + cx.rng.below(len + 2)), _ => Exec::Par(1 + cx.rng.below(len + 2)) };
             let short_kv: Vec<(i64, Rec)> = kv.iter().take(20).cloned().collect();
             let c = if cx.rng.chance(1, 6) { Coll::none() } else { st.clone() };
             let vkeyed = cx.rng.chance(1, 2);
             case_vpipe(cx, m, vkeyed, &c, e, &steps, &short_kv);
+        }
+        // a join: this input on the left, a second random input on the right, random step lists on both sides
+        if cx.rng.chance(1, 3) {
+            let side = |cx: &mut Ctx| -> Vec<Step> {
+                let k = cx.rng.below(4);
+                let mut st: Vec<Step> = (0..k).map(|_| *cx.rng.pick(&[Step::Inc, Step::Heal, Step::Brk, Step::Odd, Step::Val, Step::Val])).collect();
+                if cx.rng.chance(3, 4) && !st.contains(&Step::Val) { let p = cx.rng.below(st.len() + 1); st.insert(p, Step::Val); }
+                st
+            };
+            let (ls, rs) = (side(cx), side(cx));
+            let len2 = cx.rng.below(10);
+            let pat2 = random_pattern(cx, len2);
+            let right: Vec<(i64, Rec)> = mk_rows(&pat2).into_iter().map(|r| (cx.rng.range(0, 4), Rec { id: r.id + 100, errs: r.errs })).collect();
+            let left: Vec<(i64, Rec)> = kv.iter().take(12).cloned().collect();
+            let m = *cx.rng.pick(&MODES);
+            let e = match cx.rng.below(6) { 0 | 1 => Exec::Seq, 2 => Exec::CkSeq, 3 => Exec::CkPar(1 + cx.rng.below(6)), _ => Exec::Par(1 + cx.rng.below(14)) };
+            let c = if cx.rng.chance(1, 6) { Coll::none() } else { st.clone() };
+            case_vjoin(cx, m, &c, e, &ls, &left, &rs, &right);
         }
     }
     JITTER.store(0, Ordering::Relaxed);
@@ -1009,5 +1443,19 @@ pub fn tables(out: &mut String) {
     out.push_str("def elemStepFlags : List (String × Bool × Bool × Bool × Nat) := [\n");
     out.push_str(&format!("  (\"map\", {}, {}, {}, {}),\n", mv[0].0, mv[0].1, mv[0].2, mv[0].3));
     out.push_str(&format!("  (\"filter\", {}, {}, {}, {})\n", fv[0].0, fv[0].1, fv[0].2, fv[0].3));
+    out.push_str("]\n\n");
+
+    // the operators a `gbk` step of VPIPE puts into the blocks around the barrier
+    let p = Pipeline::default();
+    let _ = from_vec(&p, vec![0i64]).key_by(|v: &i64| *v);
+    let kb = flags_of(&p);
+    let p = Pipeline::default();
+    let _ = from_vec(&p, vec![(0i64, vec![0i64])]).flat_map(|g: &(i64, Vec<i64>)| g.1.clone());
+    let fm = flags_of(&p);
+    assert!(kb.len() == 1 && fm.len() == 1);
+    out.push_str("/-- C17: flags of `key_by` / `flat_map` (what a `gbk` step of `VPIPE` adds in front of / behind the barrier) -/\n");
+    out.push_str("def barrierStepFlags : List (String × Bool × Bool × Bool × Nat) := [\n");
+    out.push_str(&format!("  (\"key_by\", {}, {}, {}, {}),\n", kb[0].0, kb[0].1, kb[0].2, kb[0].3));
+    out.push_str(&format!("  (\"flat_map\", {}, {}, {}, {})\n", fm[0].0, fm[0].1, fm[0].2, fm[0].3));
     out.push_str("]\n\n");
 }
